@@ -40,7 +40,8 @@ def suite(cwd):
 def demo_features(text):
     head = text.split("\nuse ")[0]
     feats = re.findall(r'feature\s*=\s*"([^"]+)"', head)
-    feats += [f for f in re.findall(r"(mock-[a-z0-9-]+)", head)]
+    known = ["mock-core", "mock-std", "mock-tokio-1", "mock-futures-io-0-3", "mock-embedded-hal-1", "fragile", "spin-lock"]
+    feats = [f for f in feats if f in known] + [f for f in known if f in head]
     return sorted(set(feats))
 
 
@@ -60,17 +61,20 @@ def main():
     props = {json.loads(l)["id"]: json.loads(l) for l in open("/verif/properties.jsonl")}
     summary = []
     for pid in sorted(props):
-        for ab in ("A", "B"):
+        for ab in ("A", "B", "C", "D"):
             name = f"{pid}-{ab}"
             if only and name not in only and pid not in only:
                 continue
-            patch = f"{SEED}/{pid}-out/{ab}.patch.diff"
-            demo = f"{SEED}/{pid}-out/{ab}_demo.rs"
+            outdir = f"{SEED}/{pid}-out" if ab in "AB" else f"{SEED}/{pid}-out2"
+            if os.path.isdir(os.path.join(OUT, name)) and name not in only:
+                continue
+            patch = f"{outdir}/{ab}.patch.diff"
+            demo = f"{outdir}/{ab}_demo.rs"
             if not os.path.exists(patch) or not os.path.exists(demo):
                 summary.append((name, "missing files"))
                 continue
-            sh("git checkout -- . && git clean -fdq tests", WT)
-            code, out = sh(f"git apply {patch}", WT)
+            sh("git reset -q HEAD -- . ; git checkout -- . && git clean -fdq tests src unimock_macros", WT)
+            code, out = sh(f"git apply {patch} 2>/dev/null || git apply --3way {patch}", WT)
             if code != 0:
                 summary.append((name, "patch does not apply to HEAD"))
                 continue
@@ -83,7 +87,7 @@ def main():
             feats = demo_features(text)
             shutil.copy(demo, os.path.join(WT, "tests", "seed_demo.rs"))
             c1, p1, f1, o1 = run_demo(WT, feats)
-            sh("git checkout -- .", WT)
+            sh("git reset -q HEAD -- . ; git checkout -- . ; git clean -fdq src unimock_macros", WT)
             c0, p0, f0, o0 = run_demo(WT, feats)
             os.remove(os.path.join(WT, "tests", "seed_demo.rs"))
             ok = (c1 != 0 and (f1 > 0 or "error" in o1)) and (c0 == 0 and f0 == 0 and p0 > 0)
@@ -95,7 +99,7 @@ def main():
             shutil.copy(patch, os.path.join(d, "patch.diff"))
             shutil.copy(demo, os.path.join(d, "demo.rs"))
             notes = ""
-            np = f"{SEED}/{pid}-out/NOTES.md"
+            np = f"{outdir}/NOTES.md"
             if os.path.exists(np):
                 notes = open(np).read()
                 with open(os.path.join(d, "NOTES.md"), "w") as f:
